@@ -132,6 +132,8 @@ def teval(e: ast.AST, env: dict, leaf: Optional[Callable] = None, depth: int = 0
         if isinstance(e.value, float):
             return Fraction(e.value)
         raise NotEvaluable(t[:30])
+    if isinstance(e, ast.List) and not e.elts:
+        return []  # an accumulator (`masks = []` ... `masks.append(m)` ... `torch.stack(masks)`)
     if isinstance(e, (ast.Tuple, ast.List, ast.Set)):
         return tuple(ev(x) for x in e.elts)
     if isinstance(e, ast.UnaryOp):
@@ -411,6 +413,8 @@ def _call(c: ast.Call, ev, t: str):
         parts = ev(c.args[0])
         rest = ast.Call(func=f, args=c.args[1:], keywords=c.keywords)
         (dim,) = _kw(rest, ev, ["dim"], [0])
+        if isinstance(parts, list):
+            parts = tuple(parts)
         if not isinstance(parts, tuple) or not all(_is_arr(p_) for p_ in parts):
             raise NotEvaluable("cat of non-tensors")
         parts = [(_as_exact(p_) if any(q_.dtype != bool for q_ in parts) else p_) for p_ in parts]
@@ -477,6 +481,14 @@ def _call(c: ast.Call, ev, t: str):
     if not _is_arr(x):
         if m == "item" and not c.args:
             return x
+        if isinstance(x, (int, Fraction)) and not isinstance(x, bool) and not c.args and not c.keywords:
+            # a 0-dimensional tensor that arithmetic turned into its element
+            if m == "numel":
+                return 1
+            if m == "dim":
+                return 0
+            if m in ("min", "max", "sum"):
+                return x
         raise NotEvaluable(t[:50])
     if m == "clone":
         return np.array(x, copy=True)  # (a tensor of its own: in-place updates of one do not reach the other)
@@ -537,6 +549,21 @@ def _call(c: ast.Call, ev, t: str):
         out = np.array(_as_exact(x), dtype=object, copy=True)
         out[mb] = flat[: int(mb.sum())]
         return out
+    if m == "sort":
+        dim, desc = _kw(c, ev, ["dim", "descending"], [-1, False])
+        a_ = _axis(_int(dim), x.ndim)
+        mv = np.moveaxis(_as_exact(x), a_, -1)
+        vals, idxs = np.empty(mv.shape, dtype=object), np.empty(mv.shape, dtype=object)
+        for ix in np.ndindex(mv.shape[:-1]):
+            order = sorted(range(mv.shape[-1]), key=lambda j_: mv[ix][j_], reverse=bool(desc))  # (stable; equal entries keep their order)
+            for k_, j_ in enumerate(order):
+                vals[ix + (k_,)], idxs[ix + (k_,)] = mv[ix][j_], Fraction(j_)
+        return (np.moveaxis(vals, -1, a_), np.moveaxis(idxs, -1, a_))
+    if m == "expand_as" and len(c.args) == 1:
+        o = ev(c.args[0])
+        if not _is_arr(o):
+            raise NotEvaluable("expand_as")
+        return np.broadcast_to(x, o.shape)
     if m == "cumsum":
         (dim,) = _kw(c, ev, ["dim"], [None])
         a_ = _axis(_int(dim), x.ndim)
